@@ -51,6 +51,8 @@ func c02(c *Ctx) {
 	c02HashFields(c)
 	c02VerifyMinerSweep(c)
 	c02PanicProbe(c)
+	c02SaveFaultProbe(c)
+	c02ConcurrentProbe(c)
 	c02Campaign(c)
 }
 
